@@ -134,6 +134,9 @@ func init() {
 		"vfQuiesce": func(m *Machine, fr *frame, fn *ssa.Function, a []Value) Value {
 			m.quiesceWaiter = m.cur
 			m.quiesced = false
+			// timers due within 10 s of virtual time still count as activity; later ones (idle expiry "longer than
+			// the run") stay pending
+			m.quiesceDeadline = m.now + 10_000_000_000
 			m.blockUntil("quiesce", func() bool { return m.quiesced })
 			m.quiesceWaiter = nil
 			m.quiesced = false
